@@ -1,9 +1,11 @@
 (* C12 — no-invalid-regexp agrees with the ECMAScript grammar: what is proved about the validator model
    (Regex/Validator.v, ES2022 constants folded) and the rule's decision (Regex/RuleDecision.v).
-   The agreement with the grammar itself is validated against V8, not proved (see the check's evidence). *)
+   The agreement with the grammar itself is PROVED on a fragment (C12_fragment_equiv: Regex/Grammar.v is the ES2022
+   grammar of that fragment written from the standard) and validated against V8 beyond it (see the check's evidence). *)
 From Coq Require Import List NArith ZArith Bool.
 From V Require Import Common.Str Regex.Reader Regex.ReaderCache Gen.UnicodeProps Regex.Validator Regex.RuleDecision
-  Regex.FlagsSpec Regex.ValidatorReset Regex.ValidatorTotal Regex.DecisionSpec.
+  Regex.FlagsSpec Regex.ValidatorReset Regex.ValidatorTotal Regex.DecisionSpec
+  Regex.Grammar Regex.FragParser Regex.FragGrammar Regex.FragmentEquiv.
 Import ListNotations.
 Open Scope N_scope.
 
@@ -85,3 +87,34 @@ Theorem C12_ranges_scalar :
   forallb range_scalar large_id_start_ranges = true /\ forallb range_scalar large_id_continue_ranges = true.
 Proof. exact ranges_scalar_ok. Qed.
 Print Assumptions C12_ranges_scalar.
+
+(* --- agreement with the ECMAScript grammar on the fragment ---
+   in_fragment s: every unit of s is a pattern character other than `<` `=` `!`, or one of  . | ( ) ? * +
+   Pattern u: the inductive grammar of Regex/Grammar.v (ES2022 22.2.1 + Annex B behind the u switch, fragment:
+   Disjunction, Alternative, Term, Quantifier * + ? with lazy suffix, Atom = PatternCharacter | . | ( ) | (?: ) ).
+   From any validator state, in both modes: the model accepts exactly the Patterns. *)
+Theorem C12_fragment_equiv : forall st s u, in_fragment s = true ->
+  (verdict_of (validate_pattern st s u) = VOk <-> Pattern u (visible_units s u)).
+Proof. exact fragment_equiv. Qed.
+Print Assumptions C12_fragment_equiv.
+
+Theorem C12_fragment_reject : forall st s u, in_fragment s = true -> ~ Pattern u (visible_units s u) ->
+  exists m, verdict_of (validate_pattern st s u) = VErr m.
+Proof. exact fragment_reject. Qed.
+Print Assumptions C12_fragment_reject.
+
+(* the executable recogniser that is cross-validated against V8 decides the grammar on the fragment *)
+Theorem C12_recogniser_decides_grammar : forall u l, in_fragment l = true -> (recognises l = true <-> Pattern u l).
+Proof. exact recognises_iff_Pattern. Qed.
+Print Assumptions C12_recogniser_decides_grammar.
+
+(* non-vacuity: a nested pattern with alternation and quantifiers (16 units: open a bar b star close plus opt c
+   open opt colon d bar close opt) is a Pattern and is accepted; `a` star star and a lone open paren are neither *)
+Example C12_fragment_example_valid : forall st u,
+  Pattern u [40;97;124;98;42;41;43;63;99;40;63;58;100;124;41;63] /\
+  verdict_of (validate_pattern st [40;97;124;98;42;41;43;63;99;40;63;58;100;124;41;63] u) = VOk.
+Proof. intros st u. split; [exact (ex_valid_is_pattern u) | exact (ex_valid_accepted st u)]. Qed.
+Example C12_fragment_example_invalid : forall st u,
+  (~ Pattern u [97;42;42] /\ verdict_of (validate_pattern st [97;42;42] u) <> VOk) /\
+  (~ Pattern u [40] /\ verdict_of (validate_pattern st [40] u) <> VOk).
+Proof. intros st u. split; [exact (ex_invalid_star st u) | exact (ex_invalid_paren st u)]. Qed.
